@@ -311,6 +311,14 @@ void check_restore(const Tup & before, const Tup & after, unsigned cmask, const 
       char buf[256];
       std::snprintf(buf, sizeof buf, "{\"check\":\"restore\",\"K\":%d,\"arg\":%zu,\"argkind\":\"%s\",\"touched\":%s,\"change\":%.3e,\"limit\":%.3e,\"rel_change\":%.3e,", K, i, kind_name[kinds[i]], touched ? "true" : "false", d, lim, mx > 0 ? d / mx : d);
       rep.fail(std::string(buf) + "\"case\":\"" + ctx + "\",\"args\":" + desc + "}", std::string("restore/K") + std::to_string(K) + (touched ? "/touched/" : "/untouched/") + kind_name[kinds[i]], mx > 0 ? d / mx : d);
+    } else if (d != 0.0) {
+      // within the 1e-15 clause but not bit-identical: the code as it is (diff_impl.hpp:62/65, 102/105, 117/122-123)
+      // assigns the saved copy back, and the model of it proves the arguments are handed back UNCHANGED for every
+      // kind of argument (restore_exact_current: no assumption on rplus).  A change of any size means the model no
+      // longer describes the code (e.g. restoring by the inverse perturbation again).
+      char buf[256];
+      std::snprintf(buf, sizeof buf, "{\"check\":\"model_vs_impl\",\"what\":\"args_after\",\"K\":%d,\"arg\":%zu,\"argkind\":\"%s\",\"change\":%.3e,\"rel_change\":%.3e,\"model\":\"bit-identical\",", K, i, kind_name[kinds[i]], d, mx > 0 ? d / mx : d);
+      rep.fail(std::string(buf) + "\"case\":\"" + ctx + "\",\"args\":" + desc + "}", std::string("restore_not_bit_exact/K") + std::to_string(K) + "/" + kind_name[kinds[i]], mx > 0 ? d / mx : d);
     }
     ++i;
   };
@@ -410,12 +418,17 @@ void probe_call(hv::Rng & rng, const Tup & vals0, const int * kinds, std::index_
     double e = (J - Jt).cwiseAbs().maxCoeff(&r, &c) / scJ;
     rep.tally(K == 1 ? "accuracy_J_K1" : "accuracy_J_K2", e);
     if (!(e <= 1e-4)) {
-      const double h = (stepscale[c] > 0 ? stepscale[c] : 1.0) * (K == 1 ? EPS : SQRTEPS);
-      const double pred = Jt(r, c) + h / 2 * Ht[r](c, c);
-      const bool trunc  = std::abs(J(r, c) - pred) <= 1e-5 * scJ;
+      // diagnosis only: is the error the truncation term h/2 f'' of the first-order step (the step of the K = 1 routine,
+      // which since 41b038a also produces the J of the K = 2 routine), or of the second-order step 2^-13 (what the K = 2
+      // routine used for its J before 41b038a)?
+      const double sc   = (stepscale[c] > 0 ? stepscale[c] : 1.0);
+      const double h    = sc * EPS, h2 = sc * SQRTEPS;
+      const bool trunc  = std::abs(J(r, c) - (Jt(r, c) + h / 2 * Ht[r](c, c))) <= 1e-5 * scJ;
+      const bool trunc2 = K == 2 && !trunc && std::abs(J(r, c) - (Jt(r, c) + h2 / 2 * Ht[r](c, c))) <= 1e-5 * scJ;
+      const char * cause = trunc ? "step-truncation" : trunc2 ? "second-order-step-truncation" : "other";
       char buf[400];
-      std::snprintf(buf, sizeof buf, "{\"check\":\"accuracy_J\",\"K\":%zu,\"mode\":\"Numerical\",\"cause\":\"k%zu-%s\",\"pos\":[%ld,%ld],\"relerr\":%.3e,\"got\":%.10g,\"want\":%.10g,\"step\":%.4g,", K, K, trunc ? "step-truncation" : "other", (long)r, (long)c, e, J(r, c), Jt(r, c), h);
-      rep.fail(std::string(buf) + "\"case\":\"" + ctx + "\",\"args\":" + desc + "}", std::string("accuracy_J/K") + std::to_string(K) + (trunc ? "/step-truncation" : "/other"), e);
+      std::snprintf(buf, sizeof buf, "{\"check\":\"accuracy_J\",\"K\":%zu,\"mode\":\"Numerical\",\"cause\":\"k%zu-%s\",\"pos\":[%ld,%ld],\"relerr\":%.3e,\"got\":%.10g,\"want\":%.10g,\"step\":%.4g,", K, K, cause, (long)r, (long)c, e, J(r, c), Jt(r, c), trunc2 ? h2 : h);
+      rep.fail(std::string(buf) + "\"case\":\"" + ctx + "\",\"args\":" + desc + "}", std::string("accuracy_J/K") + std::to_string(K) + "/" + cause, e);
     }
   }
   if constexpr (K == 2) {
